@@ -53,11 +53,7 @@ def okS : X.Stmt → Bool
   | .while c b => pureE c && okS b
   | .seq ss => okSL ss
   | .assign _ e => pureE e
-  | .syscall id args =>
-    match id, args with
-    | 0, [e] => pureE e
-    | 1, [e, s] => pureE e && leafE s
-    | _, _ => false
+  | .syscall id args => decide (id < 3) && args.all pureE
   | _ => false
 def okSL : List X.Stmt → Bool
   | [] => true
